@@ -57,3 +57,47 @@ def hbuilder_cases(cases_file, count, seed):
         out.append(dict(id="hbgen-%d-%d" % (seed, len(out)), mem=[], al=0, calls=calls,
                         desc=dict(area="hbgen", slots=[c["slot"] for c in seq], seed=seed)))
     return out
+
+
+def read_templates(cases_file, ops=("get", "field", "str", "area")):
+    """per kind: the read calls (getter, every field accessor, strings, areas) of the exported Fields corpus"""
+    t = {}
+    for line in open(cases_file):
+        c = json.loads(line)
+        for call in c["calls"]:
+            if call.get("op") in ops:
+                k = "mmap" if call["op"] == "area" else call["kind"]
+                t.setdefault(k, {})[json.dumps(call, sort_keys=True)] = call
+    return {k: list(v.values()) for k, v in t.items()}
+
+
+def session_cases(files, count, seed):
+    """construct -> build -> the built bytes become the image -> load -> walk -> every getter / accessor of the
+    kinds that were supplied (and of some that were not) -> iterators -> Debug."""
+    builder_file, fields_file = files[0], files[1]
+    rng = random.Random(seed)
+    tpl = templates(builder_file, "b_set")
+    reads = read_templates(fields_file)
+    slots = sorted(tpl)
+    out = []
+    while len(out) < count:
+        k = rng.choice([rng.randrange(0, 6), rng.randrange(0, len(slots) + 1)])
+        sub = rng.sample(slots, k)
+        seq = [rng.choice(tpl[s]) for s in sub]
+        for _ in range(rng.choice([0, 0, 1, 2])):
+            s = rng.choice(["module", "smbios", "custom"] + slots)
+            seq.insert(rng.randrange(len(seq) + 1), rng.choice(tpl[s]))
+        calls = [{"op": "b_new"}] + seq + [{"op": "b_build"}, {"op": "use_built", "which": "info"}, {"op": "load"},
+                                          {"op": "tags", "it": 0}] + [{"op": "next", "it": 0}] * (len(seq) + 3)
+        present = {c["slot"] for c in seq}
+        for kind in sorted(present | set(rng.sample(sorted(reads), 3))):
+            if kind in reads:
+                rc = reads[kind]
+                calls += rc if len(rc) <= 12 else rng.sample(rc, 12)
+        calls += [{"op": "module_tags", "it": 1}, {"op": "next", "it": 1}, {"op": "next", "it": 1}, {"op": "next", "it": 1},
+                  {"op": "efi_areas", "it": 2}, {"op": "len", "it": 2}, {"op": "next", "it": 2}, {"op": "len", "it": 2},
+                  {"op": "elf_sections", "it": 3}, {"op": "next", "it": 3, "names": False},
+                  {"op": "dbg", "what": "bi"}, {"op": "b_load"}]
+        out.append(dict(id="sess-%d-%d" % (seed, len(out)), mem=[], al=0, calls=calls,
+                        desc=dict(area="session", slots=[c["slot"] for c in seq], seed=seed)))
+    return out
